@@ -2,6 +2,7 @@
 from __future__ import annotations
 
 import ast
+import re
 
 from .. import dl, lit
 from ..core import AnalysisError
@@ -101,67 +102,98 @@ def run(cx):
     # ---- C11-EVAL-WL -------------------------------------------------------------------------
     r = cx.rule("C11-EVAL-WL", "_eval_const evaluates only constants, names bound in env, arithmetic via operator.*, safe casts and len/abs/min/max: every callee and every dispatched node class is on the allow-list", floor=30)
     ev = pm.func("_eval_const")
-    local_defs = {f.name for f in ast.walk(ev) if isinstance(f, ast.FunctionDef)}
-    tables_ok = {}
-    # operator tables: inside the evaluator or hoisted to module level; every value a pure operator.* function (or the identity)
-    module_tables = {nm: v for nm, v in pm.consts.items() if isinstance(v, ast.Dict) and v.keys and all(isinstance(k, ast.Attribute) and (dotted(k) or "").startswith("ast.") for k in v.keys)
-                     and any(isinstance(x, ast.Name) and x.id == nm for x in ast.walk(ev)) and not all(isinstance(x, ast.Constant) for x in v.values)}
 
     def _identity_lambda(v_):
         return isinstance(v_, ast.Lambda) and len(v_.args.args) == 1 and isinstance(v_.body, ast.Name) and v_.body.id == v_.args.args[0].arg
 
-    for nm_, tbl_ in module_tables.items():
-        for k, v in zip(tbl_.keys, tbl_.values):
-            dn = dotted(v) or ""
-            okv = (dn.split(".")[0] in ("op", "operator") and dn.split(".")[-1] in SAFE_OPERATOR) or _identity_lambda(v)
-            r.check(okv, f"_eval_const/table[{dotted(k)}]->{dn or 'lambda'}", (pm, v), f"operator table {nm_} maps {dotted(k)} to {dn or norm(v)}, not a pure operator.* function")
+    # the evaluator's scope: _eval_const, the module-level helpers it calls by name (transitively) and the functions stored in
+    # the module-level dispatch tables it indexes; a table is safe when every value is a pure operator.* function, the
+    # identity, a safe builtin, or a function of the scope (which is then checked like the evaluator itself)
+    scope = {"_eval_const": ev}
+    safe_tables = {}
+    work = [ev]
+    module_fns = {q: f for q, f in pm.funcs.items() if "." not in q}
+
+    def table_value_ok(v_):
+        dn = dotted(v_) or ""
+        if dn.split(".")[0] in ("op", "operator") and dn.split(".")[-1] in SAFE_OPERATOR:
+            return True
+        if _identity_lambda(v_):
+            return True
+        if isinstance(v_, ast.Name) and v_.id in (SAFE_EV_BUILTINS - {"type", "isinstance", "zip", "any", "all"}):
+            return True
+        if isinstance(v_, ast.Name) and v_.id in module_fns:
+            if v_.id not in scope:
+                scope[v_.id] = module_fns[v_.id]
+                work.append(module_fns[v_.id])
+            return True
+        return False
+
+    while work:
+        fn_ = work.pop()
+        for x in ast.walk(fn_):
+            if isinstance(x, ast.Call) and isinstance(x.func, ast.Name) and x.func.id in module_fns and x.func.id not in scope and x.func.id not in ("_ensure_representable",):
+                scope[x.func.id] = module_fns[x.func.id]
+                work.append(module_fns[x.func.id])
+            if isinstance(x, ast.Name) and x.id in pm.consts and isinstance(pm.consts[x.id], ast.Dict) and x.id not in safe_tables:
+                tbl_ = pm.consts[x.id]
+                if tbl_.values and not all(isinstance(v_, ast.Constant) for v_ in tbl_.values):
+                    safe_tables[x.id] = tbl_
+                    for k, v in zip(tbl_.keys, tbl_.values):
+                        kd = dotted(k) or norm(k)
+                        r.check(table_value_ok(v), f"_eval_const/table[{kd}]->{dotted(v) or ('lambda' if isinstance(v, ast.Lambda) else norm(v))}", (pm, v), f"dispatch table {x.id} maps {kd} to {norm(v)}, which is neither a pure operator.* function, a safe builtin nor a checked helper of the evaluator")
+    module_tables = safe_tables
     for n in ast.walk(ev):
-        if isinstance(n, ast.Dict) and n.keys and all(isinstance(k, ast.Attribute) and dotted(k).startswith("ast.") for k in n.keys):
+        if isinstance(n, ast.Dict) and n.keys and all(isinstance(k, ast.Attribute) and (dotted(k) or "").startswith("ast.") for k in n.keys):
             for k, v in zip(n.keys, n.values):
                 dn = dotted(v) or ""
                 okv = dn.split(".")[0] in ("op", "operator") and dn.split(".")[-1] in SAFE_OPERATOR
                 r.check(okv, f"_eval_const/table[{dotted(k)}]->{dn}", (pm, v), f"operator table maps {dotted(k)} to {dn}, not a pure operator.* function")
+    cx.extra["evaluator_scope"] = sorted(scope)
+    cx.extra["evaluator_tables"] = sorted(safe_tables)
+    for sq, sfn in sorted(scope.items()):
+        local_defs = {f.name for f in ast.walk(sfn) if isinstance(f, ast.FunctionDef)} | set(scope)
+        params = {a_.arg for f_ in ast.walk(sfn) if isinstance(f_, (ast.FunctionDef, ast.Lambda)) for a_ in f_.args.posonlyargs + f_.args.args + f_.args.kwonlyargs}
+        for n in ast.walk(sfn):
+            if isinstance(n, ast.Call):
+                f = n.func
+                ok = False
+                why = norm(f)
+                if isinstance(f, ast.Name):
+                    if f.id in local_defs or f.id in SAFE_EV_BUILTINS:
+                        ok = True
+                    elif f.id == "_ensure_representable":   # a pure range check on the folded value (its verdicts are decided by C11-CONVERT)
+                        ok = True
+                    else:
+                        # a local that only ever holds the result of a lookup in one of the checked tables
+                        ds_ = [x.value for x in ast.walk(sfn) if isinstance(x, ast.Assign) and len(x.targets) == 1 and isinstance(x.targets[0], ast.Name) and x.targets[0].id == f.id]
+                        ok = bool(ds_) and all((isinstance(d_, ast.Subscript) and norm(d_.value) in set(module_tables) | {"ops"}) or (isinstance(d_, ast.Call) and isinstance(d_.func, ast.Attribute) and d_.func.attr == "get" and norm(d_.func.value) in set(module_tables) | {"ops"}) for d_ in ds_)
+                elif isinstance(f, ast.Attribute):
+                    dn = dotted(f) or ""
+                    if dn in ("ast.parse",):
+                        ok = True
+                    elif f.attr in SAFE_VALUE_METHODS:
+                        # methods of the evaluator's own value types (int/float/str/list); str.format is
+                        # deliberately absent (format-string attribute traversal)
+                        ok = True
+                elif isinstance(f, ast.Subscript):
+                    base = norm(f.value)
+                    ok = base in ("ops",) or base in module_tables
+                r.check(ok, f"{sq}/callee[{why}]", (pm, n), f"`{stmt_key(n)}`: callee {why} is not on the evaluator's allow-list")
+            elif isinstance(n, ast.Attribute) and dotted(n) and dotted(n).startswith("ast.") and n.attr in FORBIDDEN_EV_ARMS:
+                r.fail(f"{sq}/arm[{n.attr}]", (pm, n), f"the evaluator dispatches on ast.{n.attr}: user attribute access / lambdas / comprehensions must not be evaluated")
     casts = lit.table(pm, "_SAFE_CASTS")
     for k, v in casts.items():
         r.check(isinstance(v, lit.Ref) and v.name in ("int", "float", "str", "bool") and v.name == k, f"_SAFE_CASTS[{k}]", (pm.rel, pm.const("_SAFE_CASTS").lineno), f"_SAFE_CASTS[{k!r}] = {v!r}")
-    evq = {}
-    for n in ast.walk(ev):
-        if isinstance(n, ast.Call):
-            f = n.func
-            ok = False
-            why = norm(f)
-            if isinstance(f, ast.Name):
-                if f.id in local_defs or f.id in SAFE_EV_BUILTINS:
-                    ok = True
-                elif f.id == "_ensure_representable":   # a pure range check on the folded value (its verdicts are decided by C11-CONVERT)
-                    ok = True
-                elif f.id in ("func",):  # value looked up from the compare table, checked above
-                    ok = True
-                else:
-                    # a local that only ever holds the result of a lookup in one of the checked tables
-                    ds_ = [x.value for x in ast.walk(ev) if isinstance(x, ast.Assign) and len(x.targets) == 1 and isinstance(x.targets[0], ast.Name) and x.targets[0].id == f.id]
-                    ok = bool(ds_) and all((isinstance(d_, ast.Subscript) and norm(d_.value) in module_tables) or (isinstance(d_, ast.Call) and isinstance(d_.func, ast.Attribute) and d_.func.attr == "get" and norm(d_.func.value) in set(module_tables) | {"ops"}) for d_ in ds_)
-            elif isinstance(f, ast.Attribute):
-                dn = dotted(f) or ""
-                if dn in ("ast.parse",):
-                    ok = True
-                elif f.attr in SAFE_VALUE_METHODS:
-                    # methods of the evaluator's own value types (int/float/str/list); str.format is
-                    # deliberately absent (format-string attribute traversal)
-                    ok = True
-            elif isinstance(f, ast.Subscript):
-                base = norm(f.value)
-                ok = base in ("_SAFE_CASTS", "ops") or base in module_tables
-            r.check(ok, f"_eval_const/callee[{why}]", (pm, n), f"`{stmt_key(n)}`: callee {why} is not on the evaluator's allow-list")
-        elif isinstance(n, ast.Call) is False and isinstance(n, ast.Attribute) and dotted(n) and dotted(n).startswith("ast.") and n.attr in FORBIDDEN_EV_ARMS:
-            r.fail(f"_eval_const/arm[{n.attr}]", (pm, n), f"the evaluator dispatches on ast.{n.attr}: user attribute access / lambdas / comprehensions must not be evaluated")
-    # ast.Call arms must pin the callee to a Name from the safe set
-    for n in ast.walk(ev):
-        if isinstance(n, ast.If):
-            t = norm(n.test)
-            if "isinstance(n, ast.Call)" in t:
-                pins = "isinstance(n.func, ast.Name)" in t and ("n.func.id in _SAFE_CASTS" in t or any(f"n.func.id == '{b}'" in t for b in ("len", "abs", "max", "min")))
-                r.check(pins, f"_eval_const/call-arm[{t[:60]}]", (pm, n), "a Call arm of the evaluator does not pin the callee to a safe builtin name")
+    # ... and by evaluation: expressions that would reach anything beyond arithmetic on literals are refused
+    hostile = ["__import__('os')", "open('x')", "eval('1')", "exec('1')", "(1).__class__", "getattr(1, 'real')", "(lambda: 1)()", "[x for x in (1, 2)]", "compile('1', 'f', 'eval')", "globals()", "vars()",
+               "''.join", "'{0.__class__}'.format(1)", "print(1)", "input()", "type(1)", "len.__self__", "int.__subclasses__()", "max.__call__(1, 2)", "a.b", "x := 1", "dir()", "breakpoint()", "str.format('{}', 1)", "__builtins__"]
+    for src in hostile:
+        try:
+            out = dl.Interp(pm, opaque={"ast.parse": ast.parse}).call(ev, [src, {}])
+        except dl.Unsupported as e:
+            raise AnalysisError(f"_eval_const left the evaluable subset on `{src}`: {e}")
+        r.check(out.kind == "raise", f"_eval_const/refuses[{src}]", (pm, ev), f"_eval_const({src!r}) is evaluated to {out!r}: the constant evaluator must refuse everything but arithmetic on literals and bound names")
     # names resolve only through env
     for n in ast.walk(ev):
         if isinstance(n, ast.If) and "isinstance(n, ast.Name)" in norm(n.test):
@@ -437,11 +469,36 @@ def run(cx):
                 return False
         return False
 
+    # conversion functions handed over as an argument (`_fold(expr, int)` ... `cast(value)`): a parameter is a cast when
+    # every call of its function passes int/float/bool there
+    cast_params = {}
+    for q, fn in pm.funcs.items():
+        pnames = [a.arg for a in fn.args.posonlyargs + fn.args.args]
+        short = q.split(".")[-1]
+        sites = [c for m_fn in pm.funcs.values() for c in walk_local(m_fn, include_self=False) if isinstance(c, ast.Call) and isinstance(c.func, ast.Name) and c.func.id == short]
+        for i_, pn in enumerate(pnames):
+            passed = [c.args[i_] if len(c.args) > i_ else next((k.value for k in c.keywords if k.arg == pn), None) for c in sites]
+            if sites and all(isinstance(a_, ast.Name) and a_.id in ("int", "float", "bool") for a_ in passed):
+                cast_params[(q, pn)] = sorted({a_.id for a_ in passed})
+    cx.extra["cast_parameters"] = {f"{q}.{pn}": v for (q, pn), v in cast_params.items()}
+
+    def conv_kind(q, n):
+        if not (isinstance(n, ast.Call) and len(n.args) == 1 and not isinstance(n.args[0], ast.Constant)):
+            return None
+        nm = call_name(n)
+        if nm in ("int", "float"):
+            return nm
+        if isinstance(n.func, ast.Name) and (q, n.func.id) in cast_params:
+            kinds_ = cast_params[(q, n.func.id)]
+            return "float" if "float" in kinds_ else "int" if "int" in kinds_ else None
+        return None
+
     n_conv = 0
     for q, fn in pm.funcs.items():
         loc = None
         for n in walk_local(fn, include_self=False):
-            if not (isinstance(n, ast.Call) and call_name(n) in ("int", "float") and len(n.args) == 1 and not isinstance(n.args[0], ast.Constant)):
+            ck = conv_kind(q, n)
+            if ck is None:
                 continue
             a = norm(n.args[0])
             cs = set(lexical_conds(pm, n))
@@ -453,11 +510,11 @@ def run(cx):
                     break
                 child = anc
             numeric = [c for c, t in cs if t and c.startswith(f"isinstance({a},") and ("int" in c or "float" in c) and "str" not in c]
-            if any(t and c == f"isinstance({a}, int)" for c, t in cs) and call_name(n) == "int":
+            if any(t and c == f"isinstance({a}, int)" for c, t in cs) and ck == "int" and call_name(n) == "int":
                 continue     # int(int)
             if not numeric or _try_guarded(n):
                 continue
-            if call_name(n) == "int" and all("float" not in c for c in numeric):
+            if ck == "int" and call_name(n) == "int" and all("float" not in c for c in numeric):
                 continue     # int(int)
             n_conv += 1
             loc = loc or Locals(fn)
@@ -476,9 +533,30 @@ def run(cx):
                 for c in walk_local(fn, include_self=False):
                     if isinstance(c, ast.Call) and call_name(c) == "_ensure_representable" and c.args and isinstance(c.args[0], ast.Name) and c.args[0].id in containers and (c.lineno, c.col_offset) < (n.lineno, n.col_offset):
                         ok = True
-            r.check(ok, f"{q}/{call_name(n)}({a})-operand-representable", (pm, n), f"`{norm(n)}` converts a number that does not come from _eval_const(...)/_ensure_representable(...): float('inf') or a huge int would raise OverflowError, an internal error", sample=f"{q}: {norm(n)}")
-    if n_conv < 8:
-        raise AnalysisError(f"only {n_conv} unguarded numeric conversions found (confirmed: 10)")
+            r.check(ok, f"{q}/{norm(n.func)}({a})-operand-representable", (pm, n), f"`{norm(n)}` converts a number that does not come from _eval_const(...)/_ensure_representable(...): float('inf') or a huge int would raise OverflowError, an internal error", sample=f"{q}: {norm(n)}")
+    if n_conv < 3:
+        raise AnalysisError(f"only {n_conv} unguarded numeric conversions found (confirmed: 10 written out, fewer when resolvers share a helper)")
+    # ... and by evaluation: the argument resolvers on sources whose value is not representable (or only just)
+    from . import c03 as _c03
+    clos = {q.split(".")[-1]: f for q, f in pm.funcs.items() if q.startswith("_parse_simple_lines.") and q.count(".") == 1}
+    extreme = ["1e999", "-1e999", "1e308 * 10", "10 ** 30", "2 ** 64", "-(2 ** 70)", "2 ** 63", "1e308", "1e999 - 1e999", "10 ** 400", "-10 ** 400", "1e200 * 1e200", "9007199254740993", "[1e999][0]", "abs(-1e999)", "max(1e999, 1)"]
+    for name, dflt in (("_resolve_numeric_arg", (99,)), ("_resolve_optional_numeric_arg", ()), ("_resolve_float_arg", (99.5,)), ("_resolve_bool_arg", (True,))):
+        if name not in clos:
+            raise AnalysisError(f"{name} vanished")
+        for src in extreme:
+            it_ = dl.Interp(pm, opaque={"ast.parse": ast.parse, "ast.iter_child_nodes": lambda n_: list(ast.iter_child_nodes(n_)), "ast.walk": lambda n_: list(ast.walk(n_)), "re.fullmatch": re.fullmatch, "re.sub": re.sub})
+            env = dl.Env(None)
+            for k_, f_ in clos.items():
+                dict.__setitem__(env, k_, dl.Closure(f_, env))
+            dict.__setitem__(env, "vars", {})
+            dict.__setitem__(env, "ctx", {})
+            try:
+                outc = ("return", it_._call(clos[name], [src, *dflt], {}, env))
+            except dl.Raised as ex_:
+                outc = ("raise", ex_.exc_type)
+            except dl.Unsupported as ex_:
+                raise AnalysisError(f"{name} left the evaluable subset on {src!r}: {ex_}")
+            r.check(outc[0] == "return" or outc[1] == "ValueError", f"{name}/extreme-literal-is-folded-or-refused", (pm, clos[name]), f"{name}({src!r}) raises {outc[1]}: an internal error escapes instead of a ValueError or a run-time expression", sample=f"{name}({src})")
     ha = pm.func("_handle_assignment_ast")
     tup = [n for n in walk_local(ha) if isinstance(n, ast.If) and norm(n.test) == "isinstance(target, (ast.Tuple, ast.List))"]
     if len(tup) != 1:
